@@ -318,6 +318,8 @@ class Folder(FileSystemItemABC):
         was_deleted = file.deleted
         file.restore()
         self.files[file.uuid] = file
+        # a later, since deleted, file of the same name may own the route: point it back at the live file
+        self._file_request_manager.add_request(file.name, RequestType(func=file._request_manager))
 
         if was_deleted:
             self.deleted_files.pop(file.uuid, None)
